@@ -65,8 +65,10 @@ def param_sets(sig, ctx):
             yield {k: f'v_{k}' for k in sub}
 
 
-def method_cfg(sig, ctx, positional, view):
+def method_cfg(sig, ctx, positional, view, deco=False):
     m = D.M('f', sig, D.ECHO)
+    if deco:
+        m['deco'] = True                  # behind an ordinary functools.wraps decorator (a plain callable even when f is async)
     if ctx:
         m['ctx'] = ctx
     if positional:
@@ -87,15 +89,20 @@ def generate(tier, rng):
                         continue
                     if n == 3 and not thorough and rng.random() > 0.85:
                         continue
-                    cfg = D.cfg(methods=[method_cfg(sig, ctx, positional, view)])
-                    plist = list(param_sets(sig, ctx))
-                    if n >= 3 and not thorough:
-                        plist = rng.sample(plist, min(len(plist), 12))
-                    elif n == 4:
-                        plist = rng.sample(plist, min(len(plist), 24))
-                    for params in plist:
-                        yield D.case(json.dumps({'jsonrpc': '2.0', 'id': 1, 'method': 'f', 'params': params}), cfg, tag='bind')
-                    yield D.case(json.dumps({'jsonrpc': '2.0', 'id': 1, 'method': 'f'}), cfg, tag='bind')
+                    for deco in (False, True):
+                        if deco and n >= 2 and rng.random() > (0.5 if thorough else 0.2):
+                            continue
+                        cfg = D.cfg(methods=[method_cfg(sig, ctx, positional, view, deco)])
+                        plist = list(param_sets(sig, ctx))
+                        if n >= 3 and not thorough:
+                            plist = rng.sample(plist, min(len(plist), 12))
+                        elif n == 4:
+                            plist = rng.sample(plist, min(len(plist), 24))
+                        if deco and len(plist) > 8:
+                            plist = rng.sample(plist, 8)
+                        for params in plist:
+                            yield D.case(json.dumps({'jsonrpc': '2.0', 'id': 1, 'method': 'f', 'params': params}), cfg, tag='bind')
+                        yield D.case(json.dumps({'jsonrpc': '2.0', 'id': 1, 'method': 'f'}), cfg, tag='bind')
 
 
 def corpus():
